@@ -15,7 +15,8 @@ RULE = ("generated literal interface family (as C01, without rpc/encoded) x ever
         "sent and their request compared with the one the equivalent dict gives; unknown names (plain, qualified, "
         "dotted) must raise TypeNotFound; non-trivial = every (interface, rendering, name spelling) and every "
         "filled-object request; distinct = distinct of those"
-        " ; plus streams: simpleContent types as required / optional / repeating children, element and type sharing a name, types derived by restriction, enumeration aliases, factory.separator, attribute order (canonical rendering), names spelled with the document's own prefix")
+        " ; plus streams: simpleContent types as required / optional / repeating children, element and type sharing a name, types derived by restriction, enumeration aliases, factory.separator, attribute order (canonical rendering), names spelled with the document's own prefix"
+        ' ; occurrence bounds 0/1/2/10/unbounded, dotted paths rooted at a global element with a named type, every create a fresh object (enumerations included)')
 ASSUMPTIONS = ["a name with a prefix the client does not know raises a plain Exception('prefix not resolved'), not "
                "TypeNotFound: unknown *prefixes* are outside the alphabet of unknown names",
                "factory objects of section-5 array types are outside the family",
@@ -209,6 +210,7 @@ def run(ctx):
     flavour_probe(ctx)
     special_shapes(ctx)
     derived_and_separator(ctx)
+    occurrences_roots_and_independence(ctx)
     answers = ctx.driver.ask(reqs)
     for ans, (meta, got, exp) in zip(answers, metas):
         model = SM.py_canon_model(ans)
@@ -359,6 +361,68 @@ def derived_and_separator(ctx):
             if not (isinstance(got, dict) and K.same_value(reorder_attrs(got), reorder_attrs(exp))):
                 ctx.fail("factory object does not mirror the type's content model", meta, repr(got), repr(exp),
                          kind="special")
+
+
+def occurrences_roots_and_independence(ctx):
+    """(a) repeating means maxOccurs > 1 or unbounded: absent, "1" and "0" give None, "2", "10" and "unbounded" give [];
+    (b) a dotted path may start at a global element declared with a named type; (c) every create returns a fresh
+    object: changing one (an enumeration included) does not show in the next one created under any spelling."""
+    T = "{%s}" % wsdlkit.TNS
+    schema = ('<xsd:simpleType name="Color"><xsd:restriction base="xsd:string"><xsd:enumeration value="red"/>'
+              '<xsd:enumeration value="green"/></xsd:restriction></xsd:simpleType>'
+              '<xsd:complexType name="Inner"><xsd:sequence><xsd:element name="z" type="xsd:string"/></xsd:sequence>'
+              '</xsd:complexType>'
+              '<xsd:complexType name="Occ"><xsd:sequence><xsd:element name="a" type="xsd:string"/>'
+              '<xsd:element name="b" type="xsd:string" maxOccurs="1"/>'
+              '<xsd:element name="c" type="xsd:string" minOccurs="0" maxOccurs="0"/>'
+              '<xsd:element name="d" type="xsd:string" maxOccurs="2"/>'
+              '<xsd:element name="e" type="xsd:string" minOccurs="0" maxOccurs="unbounded"/>'
+              '<xsd:element name="g" type="xsd:string" minOccurs="0" maxOccurs="10"/>'
+              '<xsd:element name="in" type="x:Inner"/><xsd:element name="ins" type="x:Inner" maxOccurs="3"/>'
+              '</xsd:sequence></xsd:complexType><xsd:element name="order" type="x:Occ"/>'
+              '<xsd:element name="f"><xsd:complexType><xsd:sequence><xsd:element name="o" type="x:Occ"/>'
+              '</xsd:sequence></xsd:complexType></xsd:element>')
+    client = wsdlkit.client(wsdlkit.wsdl_doc(schema, "f", None), nosend=True)
+    inner = {"__class__": "Inner", "z": None}
+    occ = {"__class__": "Occ", "a": None, "b": None, "c": None, "d": [], "e": [], "g": [], "in": inner, "ins": []}
+    want = [("Occ", occ), ("order", occ), ("Occ.in", inner),
+            ("order.in", inner), ("order.ins", inner), ("Inner", inner)]
+    for name, exp in want:
+        meta = {"stream": "occurrences-and-roots", "name": name}
+        ctx.case(common.canon(meta), True)
+        try:
+            got = K.normal(client.factory.create(T + name))
+        except Exception as e:
+            got = "%s: %s" % (type(e).__name__, e)
+        if not (isinstance(got, dict) and K.same_value(got, exp)):
+            ctx.fail("factory object does not mirror the type's content model", meta, repr(got), repr(exp), kind="special")
+    for name, spell2 in (("Color", "Color"), ("Color", "ns0:Color"), ("Occ", "Occ"), ("Inner", "order.in")):
+        meta = {"stream": "fresh-objects", "name": name, "then": spell2}
+        ctx.case(common.canon(meta), True)
+        try:
+            first = client.factory.create(T + name)
+            ref = K.normal(client.factory.create(T + name)) if spell2 == name else None
+            keys = [k for k, _v in first]
+            for k in keys[:1]:
+                setattr(first, k, "scribbled")
+            for k in keys[1:2]:
+                delattr(first, k)
+            first.extra = ["x"]
+            for k, v in first:
+                if isinstance(v, list):
+                    v.append("appended")
+            second = client.factory.create(spell2 if ":" in spell2 else T + spell2)
+            third = K.normal(client.factory.create(T + name))
+            same_obj = second is first
+            got = K.normal(second)
+        except Exception as e:
+            ctx.fail("factory.create raised for a name the WSDL defines", meta, "%s: %s" % (type(e).__name__, e),
+                     "objects", kind="special")
+            continue
+        if same_obj or "extra" in got or "scribbled" in repr(got) or "appended" in repr(got) or \
+                (ref is not None and not K.same_value(third, ref)):
+            ctx.fail("a created object shows changes made to an object created earlier", meta, repr(got)[:600],
+                     "a fresh object", kind="special")
 
 
 def blank_attrs(x):
